@@ -308,9 +308,12 @@ def check(prop, tier):
     seconds = QUICK_SECONDS if tier == "quick" else THOROUGH_SECONDS
     results = campaign(bindir, prop, tier, seed, work, cases, seconds)
     stats = merge_stats(work, NCPU)
+    aborted_cases = 0       # cases that ended a worker (its counters are lost when a sanitizer aborts the process)
     for w, rc, out, err in results:
         if rc == 0:
             continue
+        if not os.path.exists(os.path.join(work, "w%d.json" % w)):
+            aborted_cases += 1
         if rc == 87:
             # the per-case watchdog fired: keep the case for triage, no verdict
             cur = os.path.join(work, "w%d.cur.mvh" % w)
@@ -441,7 +444,7 @@ def check(prop, tier):
     # 3. evidence
     labels = stats["labels"]
     cov = {
-        "evaluations": int(stats["cases"] + replayed + fuzz_stats["execs"]),
+        "evaluations": int(stats["cases"] + aborted_cases + replayed + fuzz_stats["execs"]),
         "distinct_nontrivial": int(stats["distinct_nontrivial"]),
         "rule": rule_text(bindir, prop),
         "samples": stats["samples"][:3] if stats["samples"] else ["(no non-trivial sample recorded)"],
